@@ -850,6 +850,8 @@ def normalize_repo(repo: Repo) -> dict[str, object]:
                     src_names[n.attr] = src_names.get(n.attr, 0) + 1
         for name, h in list(helpers_mod.items()):
             refs = sum(1 for fn in all_fns if fn is not h for n in ast.walk(fn.node) if (isinstance(n, ast.Name) and n.id == name))
+            # module-level code may hold on to the helper (`cached = lru_cache()(helper)`, a dispatch table, ...)
+            refs += sum(1 for st in mi.tree.body if not isinstance(st, (ast.FunctionDef, ast.ClassDef)) for n in ast.walk(st) if isinstance(n, ast.Name) and n.id == name)
             if refs == 0 and name not in mi.imports:
                 # still referenced from other modules?
                 used_elsewhere = any(name in om.imports and om.imports[name][0] == mi.name for om in repo.modules.values())
